@@ -27,7 +27,7 @@ ASSUMPTIONS = [
     "margins in the documented boxes; rectangles with end points of magnitude 1e-3..5",
 ]
 REQUIRED_COUNTERS = ["rectangles", "fast_vs_general", "oracle_comparisons", "additivity_checks", "margin_checks",
-                     "subset_checks", "inverse_roundtrips", "instance_interleavings", "rectangles_starting_at_0"]
+                     "subset_checks", "inverse_roundtrips", "instance_interleavings", "rectangles_starting_at_0", "signed_zero_end_points", "copula_changed_on_a_used_model"]
 MIN_NONTRIVIAL = {"quick": 100, "thorough": 1500}
 THOROUGH_ROUNDS = 10      # the thorough tier runs the generators this many times (different seeds)
 
@@ -103,6 +103,7 @@ def run_case(case, R):
     floor = 1e-14 * sum(abs(oracle.U(k, 1e-3)) + abs(oracle.U(k, -1e-3)) for k in range(d))
     finite = [ms["family"] in ("HEM", "MERTON") or (ms["family"] == "CGMY" and ms["params"]["y"] < 0) for ms in cm["margins"]]
     log = []
+    zero_queries = []          # rectangles with an end point exactly at 0
     for r in range(30):
         ks, a, b = _rectangle(rng, d, finite, cm["copula"]["kind"] == "independent")
         R.hit("rectangles")
@@ -135,6 +136,8 @@ def run_case(case, R):
         if got < -tol:
             R.violation(f"negative-mass-{d}d", f"{label}: mass({a}, {b}) = {got!r} < 0", wit)
         log.append((a, b, got))
+        if "from-0" in ks:
+            zero_queries.append((list(a), list(b)))
         if want > 1e-9 * scale:
             R.nontrivial_case(label, cm, pat, r)
         # additivity: split a random axis at a random point (at 0 when the interval straddles it, half of the time)
@@ -149,6 +152,8 @@ def run_case(case, R):
             try:
                 p1, p2 = float(model.mass(a, b1)), float(model.mass(a2, b))
                 s = p1 + p2
+                if c == 0.0:
+                    zero_queries += [(list(a), list(b1)), (list(a2), list(b))]
                 R.hit("additivity_checks")
                 if not math.isfinite(s):
                     R.violation(f"mass-not-finite-{d}d" + ("-end-point-at-0" if c == 0.0 else ""), f"{label}: the pieces of ({a}, {b}] split at x_{k} = {c} "
@@ -202,6 +207,57 @@ def run_case(case, R):
         if again != got and not (abs(again - got) <= 1e-13 * (abs(got) + 1e-300)):
             R.violation("mass-depends-on-instance-history", f"{label}: mass({a}, {b}) = {got!r} on a used instance, {again!r} on a fresh one", wit)
             break
+    # an end point at zero written -0.0 (the result of -x, of mirroring a grid, of rounding a tiny negative number) is the same end point:
+    # same mass, whichever of the two is asked first on an instance
+    if finite[0] or cm["copula"]["kind"] != "independent":
+        c0, c1 = W.r6(W._logu(rng, 1e-2, 1.0)), W.r6(W._logu(rng, 1e-2, 0.5))
+        zero_queries.append(([0.0] + [c1] * (d - 1), [c0] + [c1 * 3.0] * (d - 1)))
+    for order in ("negative-zero-first", "positive-zero-first"):
+        mz = W.build_copula_model(cm)
+        for a, b in zero_queries[:12]:
+            an, bn = [(-0.0 if x == 0 else x) for x in a], [(-0.0 if x == 0 else x) for x in b]
+            try:
+                if order == "negative-zero-first":
+                    vn = float(mz.mass(an, bn))
+                    vp = float(mz.mass(a, b))
+                else:
+                    vp = float(mz.mass(a, b))
+                    vn = float(mz.mass(an, bn))
+            except Exception as exc:  # noqa: BLE001
+                R.violation(f"mass-raises-{d}d", f"{label}: mass({a}, {b}) with the zero written -0.0 raises {type(exc).__name__}: {exc}", wit)
+                break
+            R.hit("signed_zero_end_points")
+            ref = next((g for (la, lb, g) in log if la == a and lb == b), None)
+            bad = (vn != vp and not (abs(vn - vp) <= 1e-13 * (abs(vp) + 1e-300))) or (ref is not None and vp != ref and not (abs(vp - ref) <= 1e-13 * (abs(ref) + 1e-300)))
+            if bad or vn < -floor - 1e-12:
+                R.violation(f"mass-depends-on-the-sign-of-a-zero-end-point-{order}", f"{label}: mass({an}, {bn}) = {vn!r} with the end point written -0.0, "
+                            f"{vp!r} with 0.0 (fresh instance, {order}" + (f"; {ref!r} on the instance used first" if ref is not None else "") + ")", wit)
+                break
+    # the copula of a used model (or of a deep copy of a used model) changed: the masses are those of a model built with the new copula
+    if cm["copula"]["kind"] == "clayton" and log:
+        import copy
+
+        cm2 = dict(cm, copula=dict(cm["copula"], theta=W.r6(cm["copula"]["theta"] * float(rng.choice([0.35, 2.7]))), eta=W.r6(float(rng.uniform(0.05, 0.95)))))
+        fresh2 = W.build_copula_model(cm2)
+        how = ["deep-copy-then-parameters-assigned", "copula-object-replaced"][case["seed"] % 2]
+        if how == "copula-object-replaced":
+            changed = m1
+            changed.copula = W.build_copula_model(cm2).copula
+        else:
+            changed = copy.deepcopy(m1)
+            changed.copula.theta = cm2["copula"]["theta"]
+            changed.copula.eta = cm2["copula"]["eta"]
+        R.hit("copula_changed_on_a_used_model")
+        for a, b, _ in log[:12]:
+            try:
+                v1, v2 = float(changed.mass(a, b)), float(fresh2.mass(a, b))
+            except Exception as exc:  # noqa: BLE001
+                R.violation(f"mass-raises-{d}d", f"{label}: mass({a}, {b}) after a change of copula raises {type(exc).__name__}: {exc}", wit)
+                break
+            if v1 != v2 and not (abs(v1 - v2) <= 1e-12 * (abs(v2) + floor)):
+                R.violation(f"mass-follows-the-old-copula-{d}d-{how}", f"{label}: copula changed to {cm2['copula']} ({how}): mass({a}, {b}) = {v1!r}, a model built "
+                            f"with that copula gives {v2!r}", wit)
+                break
     # inverse tail integral
     for i in range(d):
         ms = cm["margins"][i]
